@@ -69,7 +69,7 @@ MarkDone(m, j) == IF j = NOJ THEN m ELSE [m EXCEPT !.cd = @ \cup {j}, !.ad = @ \
 RECURSIVE SyncSubmit(_, _, _, _, _)
 SyncSubmit(m, k, len, i, cnt) ==
     IF i > k THEN [ms |-> m, count |-> cnt]
-    ELSE LET r == USubmit(SyncUnit, m.u[SyncUnit], MaxJobs + i, len) IN
+    ELSE LET r == USubmit(SyncUnit, m.u[SyncUnit], MaxJobs + i, len, 0) IN
          SyncSubmit(MarkDone([m EXCEPT !.u[SyncUnit] = r.st], r.ret), k, len, i + 1, IF r.ret = NOJ THEN cnt ELSE cnt + 1)
 RECURSIVE SyncDrain(_, _, _)
 SyncDrain(m, cnt, fuel) ==
